@@ -306,3 +306,7 @@ mod test {
         assert_eq!(value.as_object().unwrap()["a"].as_array_unwrap()[0], marker);
     }
 }
+
+#[cfg(kani)]
+#[path = "/verif/kani/crud.rs"]
+mod kani_verif;
